@@ -132,6 +132,7 @@ type Object struct {
 	Fields     []*Field // without id
 	Home       []int    // value types: services holding identical copies
 	Implements []string // interfaces other than Node
+	NoFields   bool     // an entity type with nothing but its id
 }
 
 type Iface struct {
